@@ -147,6 +147,37 @@ func unwrapErr(fr *frame, e iface) []iface {
 	return nil
 }
 
+// atomicSync makes an atomic operation a synchronisation event on its address:
+// loads acquire, stores release, read-modify-write operations do both.
+func atomicSync(name string, f externalFn) externalFn {
+	load := strings.Contains(name, ".Load")
+	store := strings.Contains(name, ".Store")
+	return func(fr *frame, a []value) value {
+		addr := a[0].(*value)
+		if !store {
+			fr.i.acquire(addr)
+		}
+		r := f(fr, a)
+		if !load {
+			fr.i.release(addr)
+		}
+		return r
+	}
+}
+
+func syncMapSync(name string, f externalFn) externalFn {
+	load := strings.HasSuffix(name, ".Load") || strings.HasSuffix(name, ".Range")
+	return func(fr *frame, a []value) value {
+		addr := a[0].(*value)
+		fr.i.acquire(addr)
+		r := f(fr, a)
+		if !load {
+			fr.i.release(addr)
+		}
+		return r
+	}
+}
+
 func isVMType(t types.Type) bool {
 	n, ok := t.(*types.Named)
 	return ok && n.Obj().Pkg() == reflectTypesPackage
@@ -539,6 +570,23 @@ func init() {
 				}
 				return true
 			}, "vrt.WaitAll")
+			for _, g := range s.gs {
+				if g != cur && g.done {
+					fr.i.acquire(g)
+				}
+			}
+			return nil
+		},
+		vrtPath + ".RaceDetect": func(fr *frame, a []value) value {
+			fr.i.race.on = a[0].(bool)
+			if fr.i.race.on {
+				for _, g := range fr.i.sched.gs {
+					if g.vc == nil {
+						g.vc = vclock{}
+						g.tick()
+					}
+				}
+			}
 			return nil
 		},
 		vrtPath + ".Preempt": func(fr *frame, a []value) value { fr.i.sched.preempt = a[0].(bool); return nil },
@@ -883,17 +931,19 @@ func init() {
 			m := fr.i.mutex(a[0].(*value))
 			switch m.readers {
 			case -1:
+				fr.i.acquire(m)
 				return nil
 			case -2:
 				if m.writer == fr.i.sched.current {
 					panic(vmPathEnd{"deadlock"}) // Do called from within f: deadlocks natively
 				}
 				fr.i.sched.park(func() bool { return m.readers == -1 }, "sync.Once")
+				fr.i.acquire(m)
 				return nil
 			}
 			m.readers = -2
 			m.writer = fr.i.sched.current
-			defer func() { m.readers = -1; m.writer = nil }()
+			defer func() { fr.i.release(m); m.readers = -1; m.writer = nil }()
 			call(fr.i, fr, token.NoPos, a[1], nil)
 			return nil
 		},
@@ -944,6 +994,7 @@ func init() {
 			if !c.cancelled {
 				return iface{}
 			}
+			fr.i.acquire(c.done)
 			if c.err == "deadline" {
 				return fr.i.globalValue("context", "DeadlineExceeded")
 			}
@@ -971,6 +1022,12 @@ func init() {
 		"(reflect.vmctx).String": func(fr *frame, a []value) value { return "context" },
 	}
 	for k, v := range ext {
+		if strings.HasPrefix(k, "sync/atomic.") {
+			v = atomicSync(k, v)
+		}
+		if strings.HasPrefix(k, "(*sync.Map).") {
+			v = syncMapSync(k, v)
+		}
 		externals[k] = hit(k, v)
 	}
 	for _, k := range []string{"(*sync.Mutex).Lock", "(*sync.Mutex).Unlock", "(*sync.RWMutex).Lock", "(*sync.RWMutex).Unlock", "(*sync.RWMutex).RLock", "(*sync.RWMutex).RUnlock"} {
@@ -1043,6 +1100,12 @@ func newCancelCtx(p *vmCtx) *vmCtx {
 
 func cancelFunc(c *vmCtx) value {
 	return &nativeFn{name: "context.cancel", code: uintptr(unsafe.Pointer(c)), ctx: c, f: func(fr *frame, args []value) value {
+		fr.i.release(c.done)
+		for _, ch := range c.children {
+			if ch.done != nil {
+				fr.i.release(ch.done)
+			}
+		}
 		c.cancel("canceled")
 		if p := c.parent.canceller(); p != nil {
 			p.pruneChildren()
